@@ -228,6 +228,8 @@ func (app *App) checkHAReplicasRunning(local *mysql.Node) (replicasRunning bool,
 }
 
 func (app *App) stateFirstRun() appState {
+	// does no I/O; must be done even when we go straight to maintenance without DCS
+	app.initializeOptimizationModule()
 	if !app.dcs.WaitConnected(app.config.DcsWaitTimeout) {
 		if app.doesMaintenanceFileExist() {
 			return stateMaintenance
@@ -235,7 +237,6 @@ func (app *App) stateFirstRun() appState {
 		return stateFirstRun
 	}
 	app.dcs.Initialize()
-	app.initializeOptimizationModule()
 	if app.AcquireLock(pathManagerLock) {
 		return stateManager
 	}
